@@ -606,6 +606,14 @@ func (e *Eval) compile(node ast.Node) error {
 		//
 		e.changeOperand(jumpEnd, len(e.instructions))
 
+		// Finally add a "Nop" instruction, one that will not
+		// be optimized away.
+		//
+		// Because our "jmp END" will jump to an instruction which
+		// doesn't exist otherwise, and because END is a join-point
+		// the optimizer must not fold constants across.
+		e.emit(code.OpPlaceholder)
+
 	case *ast.SwitchExpression:
 
 		//
